@@ -887,7 +887,7 @@ func (c *Ctx) guardPairs() []guardPair {
 	add := func(owner *types.Named, mu, f string, rw bool) {
 		m, fl := FieldVar(owner, mu), FieldVar(owner, f)
 		if m == nil || fl == nil {
-			brokenf("guarded-by pair %s.%s → %s not found (the frozen guarded-by table must be updated)", owner.Obj().Name(), mu, f)
+			brokenf("guarded-by pair %s.%s → %s not found (the frozen guarded-by table must be updated)", objName(owner.Obj()), mu, f)
 		}
 		out = append(out, guardPair{owner, m, fl, rw})
 	}
@@ -1583,7 +1583,7 @@ func ruleKindConst(c *Ctx) []Obligation {
 			if ex, ok := g.Cond.(*ssa.Extract); ok && g.Branch && ex.Index == 1 {
 				if ta, okt := ex.Tuple.(*ssa.TypeAssert); okt && isParamOrSpill(ta.X) {
 					if n := namedOf(ta.AssertedType); n != nil {
-						arm = n.Obj().Name()
+						arm = objName(n.Obj())
 					}
 				}
 			}
